@@ -13,7 +13,7 @@ import (
 func init() {
 	register("C16", &propDef{
 		Title: "Pack output depends only on the tree and the options",
-		Rules: []func(*Checker){ruleC16Globals, rulePackerWriters("C16.packer"), ruleC16ProcState, ruleC16Readlink, ruleC16Nondet, ruleC16CleanRoot},
+		Rules: []func(*Checker){ruleC16Globals, rulePackerWriters("C16.packer"), ruleC16ProcState, ruleC16Readlink, ruleC16Nondet, ruleC16CleanRoot, ruleRootLink("C16.rootlink")},
 		NotDecided: []string{
 			"equality of outputs across spellings of the source path (dot segments, trailing slash) — path algebra of filepath.Abs/Rel",
 			"the order in which filepath.Walk visits entries (library: lexical)",
@@ -511,4 +511,119 @@ func ruleC16CleanRoot(c *Checker) {
 		}
 	}
 	c.check(n > 0, R, p.FuncName(pack), "walk present", p.Pos(pack.Pos()), "walk found", "Pack no longer walks the source tree")
+}
+
+// C16.rootlink / C12.rootlink — the walk never starts on a symlink.
+func ruleRootLink(id string) func(*Checker) {
+	return func(c *Checker) {
+		c.rule(id, "filepath.Walk does not descend into a root that is a symbolic link: it visits the link and stops, and Pack then returns an empty slug with a nil error. So the path Pack starts the walk from is known not to be a link: the value handed to filepath.Walk is (filepath.Abs / Clean of) a value that was Lstat-ed in its cleaned spelling — with a trailing separator or \"/.\" Lstat reports on the link's target — and the call lies past the not-a-symlink edge of that Lstat, with no re-assignment (Readlink) in between.", 1)
+		p := c.P
+		pack := p.Fn("slug", "Packer.Pack")
+		if pack == nil {
+			c.anchorMissing(id, "(*slug.Packer).Pack")
+			return
+		}
+		n := 0
+		for _, ci := range callsTo(pack, func(o *types.Func) bool { return isFunc(o, "path/filepath", "Walk") || isFunc(o, "path/filepath", "WalkDir") }) {
+			cl, ok := ci.(*ssa.Call)
+			if !ok {
+				continue
+			}
+			n++
+			// strip Abs / Clean
+			strip := func(v ssa.Value) ssa.Value {
+				for i := 0; i < 6; i++ {
+					v = canon(v)
+					c2 := callOf(v)
+					if c2 == nil {
+						if ex, ok := v.(*ssa.Extract); ok {
+							if c3, ok := ex.Tuple.(*ssa.Call); ok && ex.Index == 0 {
+								c2 = c3
+							}
+						}
+					}
+					if c2 == nil || !(isFunc(calleeObj(c2), "path/filepath", "Abs") || isFunc(calleeObj(c2), "path/filepath", "Clean")) {
+						return v
+					}
+					v = c2.Call.Args[0]
+				}
+				return v
+			}
+			root := cl.Call.Args[0]
+			base := strip(root)
+			// an Lstat of a cleaned spelling of the same value whose not-a-symlink edge guards the walk
+			okLink := false
+			why := "no os.Lstat of the walked path with a test for os.ModeSymlink guards the walk"
+			for _, li := range callsTo(pack, func(o *types.Func) bool { return isFunc(o, "os", "Lstat") }) {
+				ls := li.(*ssa.Call)
+				arg := ls.Call.Args[0]
+				if strip(arg) != base && canon(arg) != canon(root) && canon(arg) != base {
+					continue
+				}
+				// cleaned spelling
+				cleaned := false
+				if c2 := callOf(canon(arg)); c2 != nil && (isFunc(calleeObj(c2), "path/filepath", "Clean") || isFunc(calleeObj(c2), "path/filepath", "Abs")) {
+					cleaned = true
+				}
+				if ex, ok := canon(arg).(*ssa.Extract); ok {
+					if c3, ok := ex.Tuple.(*ssa.Call); ok && isFunc(calleeObj(c3), "path/filepath", "Abs") {
+						cleaned = true
+					}
+				}
+				fi := extractOf(ls, 0)
+				if fi == nil {
+					continue
+				}
+				// mode&ModeSymlink test
+				tE, fE := condEdges(pack, func(v ssa.Value) bool {
+					bo, ok := v.(*ssa.BinOp)
+					if !ok || (bo.Op != token.NEQ && bo.Op != token.EQL) {
+						return false
+					}
+					and, ok := bo.X.(*ssa.BinOp)
+					if !ok || and.Op != token.AND {
+						return false
+					}
+					dep := false
+					for w := range p.backSlice(and, 0) {
+						if w == fi {
+							dep = true
+						}
+					}
+					return dep
+				})
+				var notLink []Edge
+				for _, e := range tE {
+					if ifi, ok := e.From.Instrs[len(e.From.Instrs)-1].(*ssa.If); ok {
+						cnd, neg := stripNot(ifi.Cond)
+						if bo, ok := cnd.(*ssa.BinOp); ok && (bo.Op == token.EQL) != neg {
+							notLink = append(notLink, e)
+						}
+					}
+				}
+				for _, e := range fE {
+					if ifi, ok := e.From.Instrs[len(e.From.Instrs)-1].(*ssa.If); ok {
+						cnd, neg := stripNot(ifi.Cond)
+						if bo, ok := cnd.(*ssa.BinOp); ok && (bo.Op == token.NEQ) != neg {
+							notLink = append(notLink, e)
+						}
+					}
+				}
+				if len(notLink) == 0 {
+					continue
+				}
+				if !guarded(cl.Block(), notLink) {
+					why = "the walk can be reached without passing the not-a-symlink edge of the Lstat of its root (e.g. after following the link once, without looking at what it points to)"
+					continue
+				}
+				if !cleaned {
+					why = "the root is Lstat-ed as it was spelled by the caller: with a trailing separator or \"/.\" Lstat reports on the link's target, the link is not noticed, and filepath.Abs then cleans the spelling back to the link itself"
+					continue
+				}
+				okLink = true
+			}
+			c.check(okLink, id, p.FuncName(pack), "walk root is not a symlink", p.Pos(cl.Pos()), "the walked path was Lstat-ed in cleaned form and is past the not-a-symlink edge", why+": filepath.Walk visits a symlink root without descending, so Pack returns an empty slug and a nil error")
+		}
+		c.check(n > 0, id, p.FuncName(pack), "walk call", p.Pos(pack.Pos()), fmt.Sprintf("%d", n), "Pack no longer walks the source directory with filepath.Walk")
+	}
 }
